@@ -21,7 +21,7 @@ type Config struct {
 	OddTimes    bool // pre-1970 / post-2038 mtimes
 	HardLinks   bool // some files are second names (hard links) of other files of the tree
 	ExtraNames  []string
-	LinkPct     int // share of nodes that are symlinks (default 18)
+	LinkPct     int      // share of nodes that are symlinks (default 18)
 	LinkIntents []string // overrides the set of link intents
 }
 
@@ -29,7 +29,7 @@ var plainNames = []string{".DS_Store", "._main.tf", "a", "b", "c", "A", "Foo", "
 var ignoreNames = []string{".git", ".terraform", "modules", "terraform.d", ".terraform", ".git"}
 var awkwardNames = []string{
 	"with space", "-dash", ".hidden", "a+b", "(paren)", "[br]", "{cur}", "pipe|x", "^car", "$dol", "#hash", "!bang", "star*", "q?",
-	"ünï", "日本語", "tab\tx", "line\nbreak", "back\\slash", "semi;colon", "a'b", "quote\"q", "..dots", "dots..", "...",
+	"ünï", "日本語", "caf{xe9}.tf", "tab\tx", "line\nbreak", "back\\slash", "semi;colon", "a'b", "quote\"q", "..dots", "dots..", "...",
 	strings.Repeat("L", 120), strings.Repeat("M", 255), strings.Repeat("é", 100),
 }
 
